@@ -444,7 +444,9 @@ impl GroupConfig {
             } else if let Some(rf) = self.rf_under {
                 Underreplicated(rf)
             } else {
-                Overreplicated(self.rf_over())
+                // Not `self.rf_over()`: that one is lowered to 0 when a transform is set,
+                // which is meant for pruning by size only and must not affect the final report.
+                Overreplicated(self.rf_over.unwrap_or(1))
             },
             root_paths: if self.isolate {
                 self.input_paths().collect()
